@@ -160,4 +160,47 @@ func init() {
 		}
 		return opRes{vals: []cty.Value{r}, s: sp.name}
 	}, selAny)
+	// the objects derived from a shared Function: a re-described copy, its proxy, its unpredictable twin; the
+	// shared original must describe itself as before afterwards
+	defOp("FunctionWrappers", "", func(t *taskState, a [3]cty.Value, p [3]int) opRes {
+		sp := typedSpecs[p[0]%len(typedSpecs)]
+		args := make([]cty.Value, len(sp.args))
+		for i := range args {
+			args[i] = typedArg(t, sp.args[i], p[1]+i*(p[2]|1))
+		}
+		ps := sp.f.Params()
+		descs := make([]string, len(ps))
+		for i := range descs {
+			descs[i] = "redescribed"
+		}
+		if sp.f.VarParam() != nil && p[2]%2 == 0 {
+			descs = append(descs, "redescribed rest")
+		}
+		g := sp.f.WithNewDescriptions("redescribed function", descs)
+		var r cty.Value
+		var err error
+		how := ""
+		switch p[2] % 3 {
+		case 0:
+			r, err = g.Call(args)
+			how = "redescribed"
+		case 1:
+			r, err = sp.f.Proxy()(args...)
+			how = "proxy"
+		default:
+			r, err = function.Unpredictable(sp.f).Call(args)
+			how = "unpredictable"
+		}
+		own := sp.f.Description()
+		for _, q := range sp.f.Params() {
+			own += "|" + q.Name + ":" + q.Description
+		}
+		if vp := sp.f.VarParam(); vp != nil {
+			own += "|..." + vp.Name + ":" + vp.Description
+		}
+		if err != nil {
+			return opRes{s: sp.name + ":" + how + ":" + errClass(err) + ":" + own}
+		}
+		return opRes{vals: []cty.Value{r}, s: sp.name + ":" + how + ":" + own + ":" + g.Description()}
+	}, selAny)
 }
